@@ -33,8 +33,9 @@ def build_case(rng, spec, tier):
                            long_ok=prof.get("long", False))
     cfg = make_cfg(rng, pool, backends=prof.get("backends", ("file", "memory")), rule_prob=prof.get("rule_prob", 0.5))
     ops = gen_history(rng, cfg, pool, text, rng.choice(tp.get("nops", (25, 50))), weights=prof.get("weights"))
+    mids = sorted({rng.randrange(len(ops)) for _ in range(rng.choice([0, 1, 2, 3]))}) if ops else []
     return {"engine": "paging", "kind": "random", "cfg": cfg, "ops": ops, "aseed": rng.getrandbits(32),
-            "inserts": rng.random() < prof.get("insert_prob", 0.5)}
+            "inserts": rng.random() < prof.get("insert_prob", 0.5), "mid_points": mids}
 
 
 SHAPE_STEMS = [b"p:a|", b"p:b|", b"p:c|", b"p:d|", b"p:e|", b"p:f|"]
@@ -363,14 +364,25 @@ def run_case(prop, case, spec, scratch, stats):
     feats = {}
     digest = ""
     try:
+        # paginations also at intermediate points: state a request keeps across calls
+        # (memos, cached nodes) must survive later inserts, reopen and clear
+        mids = set(case.get("mid_points", []))
         for i, op in enumerate(case["ops"]):
+            if i in mids and not sut.dead:
+                small = dict(case)
+                small["max_we"] = 2
+                small["inserts"] = False
+                stats["mid_history_pagination_points"] += 1
+                ds += audit_C09(sut, rng, stats, small) if prop == "C09" else audit_C10(sut, rng, stats, small)
+                if any(prop in d["props"] for d in ds):
+                    break
             new = sut.apply(op)
             for d in new:
                 d["at_op"] = i
             ds += new
             if sut.dead:
                 break
-        if not sut.dead:
+        if not sut.dead and not any(prop in d["props"] for d in ds):
             a, b = M.store_bytes(sut.t)
             digest = hashlib.sha256(a + b"/" + b).hexdigest()[:16]
             feats = features(sut)
